@@ -91,12 +91,13 @@ def extract(output: str, tag: str):
     """Find every PrintT'ed tuple whose first element is the string `tag` and return the parsed tuples.
     Works on multi-line output by bracket matching from the `<<"tag"` marker."""
     res = []
-    marker = f'<<"{tag}"'
+    marker = re.compile(r'<<\s*"' + re.escape(tag) + '"')
     pos = 0
     while True:
-        k = output.find(marker, pos)
-        if k < 0:
+        mm = marker.search(output, pos)
+        if mm is None:
             break
+        k = mm.start()
         depth = 0
         j = k
         instr = False
